@@ -164,7 +164,7 @@ func streamC11(h *H) {
 	c11InstallIndexFull()
 	root := MkTemp("c11-")
 	defer os.RemoveAll(root)
-	nTrees := h.N(3, 24)
+	nTrees := h.N(3, 12)
 	for ti := 0; ti < nTrees; ti++ {
 		c11Scenario(h, root, ti)
 	}
